@@ -1,5 +1,6 @@
 SPECIFICATION Spec
 CONSTANTS
-  Draws = 8
-  PlsDraws = 8
+  Draws = 2
+  PlsDraws = 2
+  FullCross = TRUE
 INVARIANT SpecOK
